@@ -345,7 +345,8 @@ def fault_scripts(nrounds, nfaults, kinds):
 
 def main():
     ck = Check('C12')
-    ck.trusted = ['Coq 8.16.1 kernel (vm_compute only in the non-vacuity / refutation examples); no native_compute',
+    ck.trusted = ['Coq 8.16.1 kernel (vm_compute only in the non-vacuity / refutation examples and the FWI 0..14 sweep); no native_compute',
+                  'translate/kspec_c12.py (fail-closed ast generator for the arithmetic and PCB expressions of tt4.py; floats as exact rationals)',
                   'extraction: ExtrOcamlBasic only; extract/c12_run.ml driver; OCaml 4.13.1',
                   'harness/sim/isodep_card.py (checked against the extracted Coq card on every run) and the fake clf of harness/prop/c12.py']
     ck.assumptions = ['the card follows ISO/IEC 14443-4 (block numbering rules C-E, handling rules 2, 3, 9-13, mute on error), without CID/NAD',
@@ -356,8 +357,9 @@ def main():
                       'frame waiting times are not modelled (every clf.exchange returns or raises)',
                       'activation parameters are compared for well-formed RATS / SENSB_RES answers only (T0 announcing TA(1), TB(1)); '
                       'malformed answers and an S(WTX) block without WTXM byte are C08 (Model/TagAct.v, Model/TagReadAnyB.v)']
-    ck.coq(targets=['Proofs/IsoDep.vo', 'Proofs/IsoDepSync.vo', 'Proofs/IsoDepLegacy.vo', 'Proofs/IsoDepApdu.vo',
-                    'Proofs/IsoDepStream.vo'], props='C12')
+    ck.coq(gen=['IsoDepK'],
+           targets=['Proofs/IsoDep.vo', 'Proofs/IsoDepSync.vo', 'Proofs/IsoDepLegacy.vo', 'Proofs/IsoDepApdu.vo',
+                    'Proofs/IsoDepStream.vo', 'Bridge/IsoDep.vo'], props='C12')
     mr = ck.model()
     if mr is None:
         ck.finish()
